@@ -51,8 +51,10 @@ fn main() {
         let (got, exp) = (are_semver_compatible(a, b), compatible(a, b));
         if got != exp { println!("C15-BOUNDED VIOLATION: are_semver_compatible({a:?}, {b:?}) = {got}, the track relation says {exp}"); std::process::exit(1); }
     } }
-    // insertion sequences over a smaller universe (distinct release versions only, so that "highest" is unambiguous)
-    let small: Vec<&str> = vec!["a:b/c", "a:b/c@0.0.1", "a:b/c@0.1.0", "a:b/c@0.1.2", "a:b/c@1.0.0", "a:b/c@1.2.0", "a:b/c@1.2.10", "a:b/c@1.0.1-rc.1", "a:b/c@2.0.0+meta.5", "x:y/z@1.2.0", "a:b/c@0.2.0"];
+    // insertion sequences over a smaller universe; two entries differ only in build metadata (equal precedence): for those the
+    // answer may be either, but it must not depend on the insertion order (checked across all orders of the same entries)
+    let mut by_multiset: std::collections::HashMap<(Vec<&str>, &str), Option<&str>> = std::collections::HashMap::new();
+    let small: Vec<&str> = vec!["a:b/c", "a:b/c@0.0.1", "a:b/c@0.1.0", "a:b/c@0.1.2", "a:b/c@1.0.0", "a:b/c@1.2.0", "a:b/c@1.2.10", "a:b/c@1.0.1-rc.1", "a:b/c@2.0.0+meta.5", "x:y/z@1.2.0", "a:b/c@0.2.0", "a:b/c@1.2.10+meta.5"];
     let queries: Vec<&str> = small.iter().cloned().chain(["a:b/c@1.9.9", "a:b/c@0.1.9", "x:y/z@1.0.0", "a:b/c@2.5.0", "a:b/c@0.0.2", "q"]).collect();
     let mut seqs = 0u64; let mut lookups = 0u64; let mut nontrivial = 0u64; let mut samples = vec![];
     let mut idx = vec![0usize; len];
@@ -82,7 +84,20 @@ fn main() {
                     },
                 };
                 if exp.is_some() && !defs.iter().any(|(m, _)| m == q) { nontrivial += 1; }
-                if got != exp { println!("C15-BOUNDED VIOLATION: after inserting {seq:?}, get({q:?}) = {got:?}, expected {exp:?} (exact match, else highest version on the track)"); std::process::exit(1); }
+                // entries of equal precedence (same release version, different build metadata) are interchangeable for `exp`
+                let name_of = |v: Option<usize>| v.and_then(|v| defs.iter().find(|(_, p)| *p == v).map(|(m, _)| *m));
+                let tie_ok = match (name_of(got), name_of(exp)) { (Some(g), Some(e)) => g != e && track(g) == track(e) && track(g).is_some() && release_key(g) == release_key(e) && !defs.iter().any(|(m, _)| m == q), _ => false };
+                if got != exp && !tie_ok { println!("C15-BOUNDED VIOLATION: after inserting {seq:?}, get({q:?}) = {got:?}, expected {exp:?} (exact match, else highest version on the track)"); std::process::exit(1); }
+                // ... but the choice must not depend on the insertion order (only for sequences without repeated names, where
+                // positions identify entries and shadowing plays no role)
+                let mut sorted: Vec<&str> = seq.clone(); sorted.sort(); let distinct = sorted.windows(2).all(|w| w[0] != w[1]);
+                if distinct {
+                    let gn = name_of(got);
+                    match by_multiset.get(&(sorted.clone(), *q)) {
+                        None => { by_multiset.insert((sorted, *q), gn); }
+                        Some(prev) => if *prev != gn { println!("C15-BOUNDED VIOLATION: get({q:?}) depends on the insertion order of {sorted:?}: {prev:?} in one order, {gn:?} after inserting {seq:?}"); std::process::exit(1); }
+                    }
+                }
             }
             if samples.len() < 3 && l == len && seqs % 97 == 0 { samples.push(format!("{seq:?}")); }
             // next index vector
